@@ -198,7 +198,7 @@ def checkMF (c : Case) (sfx : String) (start : Array Rect) (ccs : List CC) (over
     Option MFInfo × Option String × List (String × Nat) := Id.run do
   let mut stats : List (String × Nat) := []
   let satLines := c.get ("mfsat" ++ sfx)
-  if satLines.isEmpty then return (none, none, stats)
+  if (c.get ("mfout" ++ sfx)).isEmpty then return (none, none, stats)
   let some ord := c.get1 "order" | return (none, none, stats)
   let order := (ord.toList.map nat!).filter (· < ccs.length)
   let some scene := AdaptaVerif.Model.MakeFeasible.mkScene start ccs order
@@ -314,6 +314,37 @@ def strictViolation (ccs : List CC) (info : MFInfo) (j : Nat) : Bool :=
   !(excusedBy ccs info.droppedModel j) && !(excusedBy ccs info.brokenModel j) &&
     (info.guarded || !(excusedBy ccs info.droppedImpl j))
 
+/-- a `hang` of the implementation: which makeFeasible() call did not return (if any), and does the MODEL of
+    makeFeasible terminate on that scene?  Returns (call that hung, model terminated, all decisions guarded,
+    number of trials of the model, pairs of the non-overlap item). `none`: the hang is not inside makeFeasible
+    (its `mfsat` lines were printed) or the scene is outside the model. -/
+def hangInModel (c : Case) (rects : Array Rect) (ccs : List CC) (algo : String) (overlap : Bool) :
+    Option (String × Bool × Bool × Nat × Nat) := Id.run do
+  let isRepeat := algo == "fdmf2" || algo == "fdmfre"
+  let mfAlgo := isRepeat || algo == "fdmf" || algo == "fdmfrun"
+  if !mfAlgo then return none
+  let some ord := c.get1 "order" | return none
+  -- which call?
+  let (call, start) :=
+    if isRepeat then
+      if (c.get "mfout1").isEmpty then ("first makeFeasible()", some rects)
+      else if (c.get "mfout").isEmpty then
+        ("second makeFeasible()", match parseRects c "dragged" with | some d => if d.size == rects.size then some d else none | none => none)
+      else ("", none)
+    else if (c.get "mfout").isEmpty then ("makeFeasible()", some rects) else ("", none)
+  let some st := start | return none
+  let order := (ord.toList.map nat!).filter (· < ccs.length)
+  let some scene := AdaptaVerif.Model.MakeFeasible.mkScene st ccs order | return none
+  let mfUser := AdaptaVerif.Model.MakeFeasible.makeFeasible scene.n scene.vx scene.vy scene.items
+  if mfUser.fuelOut || mfUser.stuck || mfUser.escaped then return some (call, false, false, mfUser.log.size, 0)
+  if !overlap then return some (call, true, mfUser.margin > mfGuard, mfUser.log.size, 0)
+  let half := st.map fun r => ((r.width + 2) / 2, (r.height + 2) / 2)
+  let noc0 := AdaptaVerif.Model.MakeFeasible.Noc.ofSizes half
+  -- generous fuel: the loop of the code handles every pair once, plus re-sorts
+  match AdaptaVerif.Model.MakeFeasible.MF.runNoc ccs.length (40 * noc0.pairs.length + 100) mfUser noc0 with
+  | some (mf2, noc) => return some (call, !mf2.fuelOut, mf2.margin > mfGuard && noc.margin > mfGuard, mf2.log.size, noc0.pairs.length)
+  | none => return some (call, false, false, mfUser.log.size, noc0.pairs.length)
+
 def checkLayout (c : Case) : CaseResult := Id.run do
   let some (rects, ccs) := parseScene c | return { verdict := .diverge "unparsable case" }
   let mut stats : List (String × Nat) := []
@@ -326,7 +357,20 @@ def checkLayout (c : Case) : CaseResult := Id.run do
   if str "desired" != "0" && str "desired" != "?" then stats := bumpStats stats "with.desiredPositions" 1
   for cc in ccs do stats := bumpStats stats ("lay.cc." ++ ccKind cc) 1
   match c.get1 "hang" with
-  | some l => return { verdict := .specfail s!"hang: the layout call did not return within {l[0]?.getD "?"} s (algo={str "algo"}, planted={str "planted"})", stats := stats }
+  | some l =>
+    -- the clean library has ONE known way not to return (a rigidly overlapping pair re-queued forever by
+    -- NonOverlapConstraints::markCurrSubConstraintAsActive(false)); the model of the non-overlap loop reproduces it (it runs
+    -- out of fuel).  A hang on a scene where the model's makeFeasible TERMINATES is a different defect: strict kind.
+    match hangInModel c rects ccs (str "algo") (str "overlap" == "1") with
+    | some (call, terminated, guarded, trials, pairs) =>
+      stats := bumpStats stats (if terminated then (if guarded then "hang.model-terminates" else "hang.model-terminates-unguarded") else "hang.model-livelock") 1
+      if terminated && guarded then
+        return { verdict := .specfail s!"hang-but-model-terminates: {call} did not return within {l[0]?.getD "?"} s, the model of makeFeasible terminates on this scene after {trials} trials ({pairs} non-overlap pairs, every decision clear of rounding) (algo={str "algo"}, overlap={str "overlap"}, planted={str "planted"})", stats := stats }
+      else
+        let why := if terminated then "the model terminates but a decision is within rounding noise" else "the model of the non-overlap loop does not terminate either: a rigidly overlapping pair is re-queued forever"
+        return { verdict := .specfail s!"hang: {call} did not return within {l[0]?.getD "?"} s; {why} (algo={str "algo"}, planted={str "planted"})", stats := stats }
+    | none =>
+      return { verdict := .specfail s!"hang: the layout call did not return within {l[0]?.getD "?"} s (algo={str "algo"}, planted={str "planted"})", stats := stats }
   | none => pure ()
   if !(allFinite c "out") then
     return { verdict := .specfail "non-finite coordinate in the final rectangles", stats := stats }
